@@ -292,6 +292,26 @@ func TestVerifTSSReload(t *testing.T) {
 			}
 			shares = append(shares, dst)
 		}
+		// a receiver that decodes every incoming partial signature into ONE
+		// variable and keeps the values it got
+		{
+			var tmp tss.SignShare
+			var received []tss.SignShare
+			for _, sh := range shares {
+				enc, _ := sh.MarshalBinary()
+				if err := tmp.UnmarshalBinary(lib.Clone(enc)); err != nil {
+					lib.Violation("C17:signshare-roundtrip-fails:tss-rsa", mon, lib.D("err", err))
+					return
+				}
+				received = append(received, tmp)
+			}
+			lib.Count("tss:signshares-through-one-variable")
+			sig2, err2 := tss.CombineSignShares(pub, received, em)
+			if err2 != nil || rsa.VerifyPKCS1v15(pub, crypto.SHA256, h[:], sig2) != nil {
+				lib.Violation("C17:combine-fails:tss-rsa:sign-shares-decoded-through-one-variable", mon, lib.D("l", c.l, "k", c.k, "err", err2))
+				return
+			}
+		}
 		sig, err := tss.CombineSignShares(pub, shares, em)
 		if err != nil || rsa.VerifyPKCS1v15(pub, crypto.SHA256, h[:], sig) != nil {
 			lib.Violation("C17:combine-fails:tss-rsa:share-loaded-into-used-object", mon,
